@@ -34,7 +34,8 @@ WRITE = {"view.update": ("framework/population/manager.py", "view.update"),
 SUB = {"subview.get": None, "subview.update": None}   # handles returned by PopulationView.subview (no table entry)
 SERVICES = {**REG, **READ, **WRITE}
 # further kinds of handle for the same services (each must obey the same rule)
-VARIANTS = ["pipeline@skip_post", "pipeline@rate_skip_post", "view.get@extra_query", "choice@weights", "get_draw@additional_key",
+VARIANTS = ["get_stream@crn", "register_value_producer@rate", "register_value_modifier@step_size", "build_table@frame",
+            "pipeline@skip_post", "pipeline@rate_skip_post", "view.get@extra_query", "choice@weights", "get_draw@additional_key",
             "view.get@query", "view.get@all", "view.update@query", "view.update@all", "pipeline@rate", "pipeline@get_value",
             "sample_from_distribution", "get_draw@crn", "filter_for_probability@crn", "filter_for_rate@crn", "choice@crn",
             "sample_from_distribution@crn", "table@multi", "table@categorical", "table@interpolated"]
@@ -156,7 +157,12 @@ def _run_matrix(case):
                 "initializes_simulants": lambda: b.population.initializes_simulants(Helper(f"h{n}").on_initialize_simulants),
                 "get_simulant_creator": lambda: b.population.get_simulant_creator(),
                 "get_stream": lambda: b.randomness.get_stream(f"s{n}"),
+                "get_stream@crn": lambda: b.randomness.get_stream(f"sc{n}", initializes_crn_attributes=True),
+                "register_value_producer@rate": lambda: b.value.register_rate_producer(f"vr{n}", source=lambda i: 1),
+                "register_value_modifier@step_size": lambda: b.time.register_step_size_modifier(lambda i: pd.Series(pd.NaT, index=i, dtype="timedelta64[ns]")),
                 "build_table": lambda: b.lookup.build_table(1.0),
+                "build_table@frame": lambda: b.lookup.build_table(
+                    pd.DataFrame({"a": [0, 1], "value": [1.0, 2.0]}), key_columns=["a"], value_columns=["value"]),
                 "view.get": lambda: h["view"].get(idx),
                 "view.get@query": lambda: h["view_q"].get(idx),
                 "view.get@all": lambda: h["view_all"].get(idx),
@@ -263,10 +269,10 @@ class C07(Prop):
     technique = "Lean 4 proof (decide over the constraint table regenerated from every add_constraint call site) + exhaustive dynamic service x state matrix on real simulations"
     n_quick = 16
     n_thorough = 120
-    rule = ("each case is a whole simulation in which probe components issue all 38 service calls (every kind of handle: plain / "
+    rule = ("each case is a whole simulation in which probe components issue all 42 service calls (every kind of handle: plain / "
             "queried / whole-table views, sub-views, pipelines from register_value_producer / register_rate_producer / get_value, "
             "ordinary and CRN-initialising streams incl. sample_from_distribution, scalar / multi-value / categorical / interpolated "
-            "lookup tables) in all 9 component-visible lifecycle states (342 cells, enumerated completely); cases vary who obtains the handles, when during setup, "
+            "lookup tables) in all 9 component-visible lifecycle states (378 cells, enumerated completely); cases vary who obtains the handles, when during setup, "
             "component order, CRN on/off, population size; non-trivial = the matrix has both admitted and refused cells")
 
     def boundary(self):
